@@ -895,7 +895,31 @@ pub fn generate_c14(rng: &mut Rng) -> RunSpec {
                 order.swap(i, j);
             }
             let mut detours: Vec<u32> = Vec::new();
-            let style = rng.below(4); // 0: plain, 1: detours, 2: detours + capacity games, 3: extend
+            let style = rng.below(5); // 0: plain, 1: detours, 2: detours + capacity games, 3: extend, 4: build, retain away, rebuild
+            if style == 4 {
+                // first a throw-away population, possibly mid-resize, emptied through retain
+                let n0 = rng.below(40) as u32;
+                for i in 0..n0.min(uni) {
+                    if set {
+                        ops.push(Op::SInsert { s: slot, k: KeySel::Kv(i) });
+                    } else {
+                        tmp_p += 1;
+                        ops.push(Op::Insert { m: slot, k: KeySel::Kv(i), p: tmp_p });
+                    }
+                }
+                if rng.chance(1, 2) {
+                    if set {
+                        ops.push(Op::SReserve { s: slot, n: Arg::Abs(rng.below(40) as usize) });
+                    } else {
+                        ops.push(Op::Reserve { m: slot, n: Arg::Abs(rng.below(40) as usize) });
+                    }
+                }
+                if set {
+                    ops.push(Op::SRetain { s: slot, pred: Pred::None });
+                } else {
+                    ops.push(Op::Retain { m: slot, pred: Pred::None, mutate: None });
+                }
+            }
             if style == 3 && !order.is_empty() {
                 if set {
                     ops.push(Op::SExtend { s: slot, items: order.iter().map(|x| x.0).collect(), by_ref: rng.chance(1, 2), hint: 0 });
@@ -956,7 +980,8 @@ pub fn generate_c14(rng: &mut Rng) -> RunSpec {
                 }
             }
             // final phase: often leave a resize in flight
-            if rng.chance(1, 2) {
+            let split_now = rng.chance(1, 2);
+            if split_now {
                 let n = match rng.below(3) {
                     0 => Arg::Free(1),
                     1 => Arg::Cap(1),
@@ -997,6 +1022,19 @@ pub fn generate_c14(rng: &mut Rng) -> RunSpec {
         } else {
             ops.push(Op::CloneTo { src, dst });
             ops.push(Op::SCloneTo { src, dst });
+        }
+    }
+    // the same value updates through replace_entry_with in every map (placed last, so that they
+    // may hit elements still in the old table): contents stay equal by construction
+    if !target.is_empty() && rng.chance(1, 2) {
+        let nupd = rng.range(1, 3) as usize;
+        for u in 0..nupd {
+            let k = target[rng.below(target.len() as u64) as usize].0;
+            let p = 2_000_000 + (u as u32) * 16;
+            for slot in 0..3u8 {
+                let ksel = if rng.chance(1, 2) { KeySel::Kv(k) } else { KeySel::Kv(k) };
+                ops.push(Op::Entry { m: slot, k: ksel, chain: vec![EStep::AndReplaceSome], p });
+            }
         }
     }
     let observe = |ops: &mut Vec<Op>, rng: &mut Rng| {
@@ -1072,5 +1110,38 @@ pub fn generate_growth(rng: &mut Rng) -> RunSpec {
             next += 1;
         }
     }
+    RunSpec { cfg, ops, faults: Vec::new(), mode: None }
+}
+
+
+/// C16: collections around serde's "cautious" size-hint clamp (4096 elements) and well beyond
+/// it, in any resize phase, serialised, round-tripped and deserialised in place.
+pub fn generate_serde_big(rng: &mut Rng) -> RunSpec {
+    let mut prof = Profile::base();
+    prof.elem = [1, 0, 0];
+    prof.maps = 1;
+    prof.sets = 3;
+    prof.hashers = [6, 0, 0, 1, 1];
+    let mut cfg = Gen::draw_config(rng, &prof);
+    cfg.universe = 1 << 14;
+    cfg.full_check_every = 1 << 20;
+    let n = *rng.pick(&[4094u32, 4095, 4096, 4097, 4098, 5000, 7168, 7169, 9000]);
+    let mut ops: Vec<Op> = Vec::new();
+    let stride = *rng.pick(&[1u32, 3, 5]);
+    for i in 0..n {
+        ops.push(Op::Insert { m: 0, k: KeySel::Kv((i * stride) % (1 << 14)), p: i + 1 });
+        ops.push(Op::SInsert { s: 0, k: KeySel::Kv((i * stride) % (1 << 14)) });
+    }
+    if rng.chance(1, 2) {
+        ops.push(Op::Reserve { m: 0, n: Arg::Free(1) });
+        ops.push(Op::SReserve { s: 0, n: Arg::Free(1) });
+    }
+    // a small destination in some phase
+    for i in 0..rng.below(40) as u32 {
+        ops.push(Op::SInsert { s: 1, k: KeySel::Kv(20_000 + i) });
+    }
+    ops.push(Op::SerdeMap { m: 0 });
+    ops.push(Op::SerdeSet { s: 0, dst: 1, hint: rng.below(5) as u8, fail_at: None });
+    ops.push(Op::SerdeSet { s: 0, dst: 2, hint: 0, fail_at: if rng.chance(1, 2) { Some(4096 + rng.below(3) as u32) } else { None } });
     RunSpec { cfg, ops, faults: Vec::new(), mode: None }
 }
